@@ -28,7 +28,7 @@ Open Scope list_scope.
 (* the only fact about the vocabulary of a program that is used here: a predicate of ext_voc t P is a
    predicate of P or public *)
 Lemma ext_voc_cases t P q : In q (ext_voc t P) -> In q (program_preds P) \/ In q (ug_public_predicates (et_user_guide t)).
-Proof. unfold ext_voc. rewrite in_app_iff. tauto. Qed.
+Proof. intros H. apply ext_voc_incl_public in H. unfold ext_voc_public in H. rewrite in_app_iff in H. exact H. Qed.
 
 (* the vocabulary of the specification side: the predicates of the specification and the public ones *)
 Definition spec_voc (t : ext_task) (S : specification) : list pred :=
